@@ -150,6 +150,87 @@ MUST_ESCAPE = {
 }
 
 
+def escape_arms(fn):
+    """for a switch over the current character: per case value, what is wrong with its arm (None = fine).  The arm
+    (statements up to the next break) must append, outside any condition, a string literal that starts with a backslash,
+    and must nowhere append anything else (the raw character, a literal that begins with the character itself)"""
+    out = {}
+    for sw in [x for x in walk(fn["body"]) if x.get("k") == "SwitchStmt"]:
+        body = sw.get("body") or {}
+        stmts = body.get("c") or []
+        i = 0
+        while i < len(stmts):
+            st = stmts[i]
+            if st.get("k") != "CaseStmt":
+                i += 1
+                continue
+            vals = []
+            arm = []
+            cur = st
+            # `case a: case b: stmt` nests CaseStmt in `sub`
+            while cur is not None and cur.get("k") == "CaseStmt":
+                for y in walk(cur.get("lhs") or cur.get("value") or {}):
+                    if "cv" in y:
+                        try:
+                            vals.append(int(y["cv"]))
+                        except ValueError:
+                            pass
+                        break
+                nxt = cur.get("sub")
+                if nxt is None:
+                    kids = [v for k, v in cur.items() if isinstance(v, dict) and k not in ("lhs", "value")]
+                    nxt = kids[0] if kids else None
+                cur = nxt
+            if cur is not None:
+                arm.append(cur)
+            j = i + 1
+            while j < len(stmts) and stmts[j].get("k") not in ("BreakStmt", "CaseStmt", "DefaultStmt", "ReturnStmt"):
+                arm.append(stmts[j])
+                j += 1
+            appends = []       # (literal-or-None, conditional?)
+
+            def scan(n, cond):
+                if not isinstance(n, dict):
+                    return
+                k = n.get("k")
+                if k in ("IfStmt", "ConditionalOperator", "SwitchStmt", "ForStmt", "WhileStmt"):
+                    for kk, v in n.items():
+                        if isinstance(v, dict):
+                            scan(v, True)
+                        elif isinstance(v, list):
+                            for y in v:
+                                scan(y, True)
+                    return
+                c = n.get("callee") or {}
+                if k in ("CXXOperatorCallExpr", "CXXMemberCallExpr") and c.get("name") in ("operator+=", "append", "push_back"):
+                    lit = None
+                    for y in walk(n):
+                        if "str" in y:
+                            lit = y["str"]
+                            break
+                    appends.append((lit, cond))
+                    return
+                for kk, v in n.items():
+                    if isinstance(v, dict):
+                        scan(v, cond)
+                    elif isinstance(v, list):
+                        for y in v:
+                            scan(y, cond)
+            for a in arm:
+                scan(a, False)
+            problem = None
+            if not any(lit is not None and lit.startswith("\\") and not cond for lit, cond in appends):
+                problem = "its arm does not append an escape sequence on every path"
+            bad = [lit for lit, cond in appends if lit is None or not lit.startswith("\\")]
+            if bad:
+                problem = "its arm appends %s, which puts the character itself into the literal on some path" % (
+                    "the raw character" if bad[0] is None else repr(bad[0]))
+            for v in vals:
+                out[v] = problem
+            i = j
+    return out
+
+
 def check_escape_table(chk, esc):
     """the escaping function every free-text placeholder goes through handles each character of MUST_ESCAPE"""
     fns = [fn for fn in esc if fn.get("body") is not None]
@@ -176,10 +257,14 @@ def check_escape_table(chk, esc):
     if len(handled) < 3:
         chk.broke("G-FLOW.a: cannot read the character cases of %s (found %s)" % (fn["qn"], sorted(handled)))
         return
+    arms = escape_arms(fn)
     for c, why in sorted(MUST_ESCAPE.items()):
         key = "escape-char:%d" % c
-        if c in handled:
-            chk.ok("G-FLOW.a", key, {"function": fn["qn"], "char": c})
+        if c in handled and c in arms and arms[c]:
+            chk.violation("G-FLOW.a", key, "%s:%s" % (rel(fn["file"]), fn["line"]),
+                          "%s has a case for character %d (%r) but %s: %s" % (fn["qn"], c, chr(c), arms[c], why))
+        elif c in handled:
+            chk.ok("G-FLOW.a", key, {"function": fn["qn"], "char": c, "arm": "appends an escape sequence on every path" if c in arms else "handled by a comparison"})
         else:
             chk.violation("G-FLOW.a", key, "%s:%s" % (rel(fn["file"]), fn["line"]),
                           "%s leaves character %d (%r) as it is: %s - schema free text containing it yields a header that "
